@@ -418,6 +418,56 @@ def sc_connect_vs_create_statements(fs: Any):
     return [connector, creator], check
 
 
+def sc_connect_other_case(fs: Any):
+    """Two connects to the same new database and schema, spelled in different letter case."""
+    spell = [("racedb3", "rs"), ("RACEDB3", "RS")]
+    got: list[Any] = [None, None]
+
+    def body(i: int) -> Callable[[], None]:
+        def f() -> None:
+            c = fs.connect(*spell[i])
+            got[i] = c
+            cur = c.cursor()
+            cur.execute(f"CREATE TABLE IF NOT EXISTS OWN{i} (ID INT, S VARCHAR(6)) COMMENT = 'own {i}'")
+            cur.execute(f"INSERT INTO OWN{i} (ID) VALUES ({i})")
+            d = cur.execute(f"SELECT comment FROM information_schema.tables WHERE table_name = 'OWN{i}' AND table_schema = 'RS'").fetchall()
+            assert d == [(f"own {i}",)], f"session {i} reads comment {d}"
+        return f
+
+    def check(env: core.Env, sched: Sched, name: str) -> None:
+        env.count("cmp_final_state")
+        for i, c in enumerate(got):
+            if sched.errors[i] is None and (c is None or (c.database, c.schema, c.database_set, c.schema_set) != ("RACEDB3", "RS", True, True)):
+                env.witness(f"C19/{name}/connect-without-context", f"session {i}: {None if c is None else (c.database, c.schema, c.database_set, c.schema_set)}")
+    return [body(0), body(1)], check
+
+
+def sc_same_create_if_not_exists(fs: Any):
+    """Two sessions run the identical CREATE TABLE IF NOT EXISTS (comment, VARCHAR lengths): both succeed in any order."""
+    conns = [fs.connect("db1", "s1") for _ in range(2)]
+
+    def body(i: int) -> Callable[[], None]:
+        def f() -> None:
+            cur = conns[i].cursor()
+            cur.execute("CREATE TABLE IF NOT EXISTS SHARED_DEF (ID INT, NAME VARCHAR(12), NOTE VARCHAR(3)) COMMENT = 'shared definition'")
+            cur.execute(f"INSERT INTO SHARED_DEF (ID) VALUES ({i})")
+        return f
+
+    def check(env: core.Env, sched: Sched, name: str) -> None:
+        env.count("cmp_final_state")
+        cur = conns[0].cursor()
+        t = cur.execute("SELECT comment FROM information_schema.tables WHERE table_name = 'SHARED_DEF' AND table_schema = 'S1'").fetchall()
+        c = cur.execute("SELECT column_name, character_maximum_length FROM information_schema.columns WHERE table_name = 'SHARED_DEF' AND table_schema = 'S1' "
+                        "AND data_type = 'TEXT' ORDER BY 1").fetchall()
+        if all(e is None for e in sched.errors) and (t, c) != ([("shared definition",)], [("NAME", 12), ("NOTE", 3)]):
+            env.witness(f"C19/{name}/metadata-of-no-serial-order", f"comment {t} text columns {c} trace={sched.trace}")
+        rows = sorted(cur.execute("SELECT ID FROM SHARED_DEF").fetchall())
+        want = [(i,) for i in range(2) if sched.errors[i] is None]
+        if rows != want:
+            env.witness(f"C19/{name}/lost-insert", f"{rows} expected {want} trace={sched.trace}")
+    return [body(0), body(1)], check
+
+
 def sc_own_tables(fs: Any, k: int = 3):
     conns = [fs.connect("db1", "s1") for _ in range(k)]
 
@@ -450,6 +500,8 @@ SCENARIOS: dict[str, Callable] = {
     "own-tables-x3": sc_own_tables,
     "txn-pk-conflict": sc_txn_pk_conflict,
     "drop-vs-replace-same-table": sc_drop_vs_replace,
+    "connect-same-db-other-letter-case": sc_connect_other_case,
+    "same-create-table-if-not-exists": sc_same_create_if_not_exists,
     "connect-vs-create-statements": sc_connect_vs_create_statements,
 }
 
